@@ -495,6 +495,21 @@ func (rm *room) propose(i int, actor user, before map[ref.Key]string) (typ strin
 		if jr == "restricted" || jr == "knock_restricted" {
 			c["allow"] = []any{map[string]any{"type": "m.room_membership", "room_id": "!other:" + string(actor.srv.Name)}}
 		}
+		if t.Chance(120) {
+			// legal room state whose content does not have the shape the rules
+			// read (the auth rules judge a join_rules event as any other state
+			// event): events that do not need the join rule must not care
+			c = sim.Pick(t, []map[string]any{
+				{"join_rule": jr, "allow": map[string]any{"type": "m.room_membership"}},
+				{"join_rule": jr, "allow": "everybody"},
+				{"join_rule": 5},
+				{"join_rule": nil},
+				{"join_rule": []any{jr}},
+				{},
+				{"join_rule": jr, "allow": []any{"not an object", 7}},
+			})
+			r.Probe("join_rules_event_with_unreadable_content")
+		}
 		content = c
 	case 5:
 		typ, sk, content = "m.room.name", world.Str(""), map[string]any{"name": fmt.Sprintf("n%d", i)}
